@@ -4,11 +4,16 @@ import (
 	"fmt"
 	"go/ast"
 	"go/constant"
+	"go/token"
 	"go/types"
+	"golang.org/x/tools/go/ssa/ssautil"
+	"os"
 	"sort"
 	"strconv"
+	"strings"
 
 	"golang.org/x/tools/go/packages"
+	"golang.org/x/tools/go/ssa"
 )
 
 // TableCheck: finite, exhaustive obligations over a package-level composite literal
@@ -294,4 +299,318 @@ func (e *Engine) checkTable(tc TableCheck) {
 		}
 		e.oblige(fx, st, "table", fmt.Sprintf("expect[%d]", i), goal, fmt.Sprintf("%s[%d] must be %q (value %q)", tc.Var, i, want, entries[int64(i)]), 0)
 	}
+}
+
+// checkGlobalInvMapsReadOnly: the invariants declared over package-level maps (globalinv) are
+// established by the initialiser (table obligations) and are assumed everywhere afterwards, also
+// after calls into unknown code. That is justified only if nothing but package initialisation
+// ever updates those maps: one ground obligation per map named in a globalinv.
+func (e *Engine) checkGlobalInvMapsReadOnly() {
+	var pkgs []string
+	for p := range e.cs.GlobalInv {
+		pkgs = append(pkgs, p)
+	}
+	sort.Strings(pkgs)
+	for _, pkgPath := range pkgs {
+		sp := e.pkgs[pkgPath]
+		if sp == nil {
+			continue
+		}
+		names := map[string]bool{}
+		for _, c := range e.cs.GlobalInv[pkgPath] {
+			var walk func(x *Expr)
+			walk = func(x *Expr) {
+				if x == nil {
+					return
+				}
+				if x.Op == "id" || x.Op == "ident" || x.Op == "name" {
+					names[x.Name] = true
+				}
+				if x.Name != "" {
+					names[x.Name] = true
+				}
+				for _, a := range x.Args {
+					walk(a)
+				}
+			}
+			walk(c.E)
+		}
+		var gl []*ssa.Global
+		for n := range names {
+			if g, ok := sp.Members[n].(*ssa.Global); ok {
+				if _, isMap := g.Type().(*types.Pointer).Elem().Underlying().(*types.Map); isMap {
+					gl = append(gl, g)
+				}
+			}
+		}
+		sort.Slice(gl, func(i, j int) bool { return gl[i].Name() < gl[j].Name() })
+		for _, g := range gl {
+			var writers []string
+			for fn := range ssautil.AllFunctions(e.prog) {
+				if fn.Pkg == nil || (fn.Name() == "init" && fn.Synthetic != "") {
+					continue
+				}
+				for _, b := range fn.Blocks {
+					for _, ins := range b.Instrs {
+						var m ssa.Value
+						switch u := ins.(type) {
+						case *ssa.MapUpdate:
+							m = u.Map
+						case *ssa.Call:
+							if bi, ok := u.Call.Value.(*ssa.Builtin); ok && (bi.Name() == "delete" || bi.Name() == "clear") && len(u.Call.Args) > 0 {
+								m = u.Call.Args[0]
+							}
+						case *ssa.Store:
+							if u.Addr == ssa.Value(g) {
+								writers = append(writers, funcFullName(fn)+" (reassigns the variable)")
+							}
+						}
+						if ld, ok := m.(*ssa.UnOp); ok && ld.X == ssa.Value(g) {
+							writers = append(writers, funcFullName(fn))
+						}
+					}
+				}
+			}
+			sort.Strings(writers)
+			fx := &FuncExec{eng: e, name: "table:" + pkgPath + "." + g.Name(), modKeys: map[string]bool{}, havocGens: map[string]bool{}}
+			st := &State{fx: fx, declSet: map[string]bool{}, pcSet: map[string]bool{}, ghostV: map[string]Value{}}
+			st.heap = &HeapView{m: map[string]string{}, base: "0"}
+			st.old = st.heap
+			goal := "true"
+			if len(writers) > 0 {
+				goal = "false"
+			}
+			e.oblige(fx, st, "table", "written-by-init-only", goal, fmt.Sprintf("map %s (subject of a globalinv) is updated outside package initialisation by %v", g.Name(), writers), g.Pos())
+		}
+	}
+}
+
+// checkPooledInit: an object taken from an ObjectPool carries whatever its previous user left in
+// it (or zero values). Every use of the pointer returned by (*ObjectPool).Get - other than
+// handing it back with Return - must therefore be dominated by a re-initialisation through it:
+// a store of a whole new struct value, or stores to every field. The pointer is followed through
+// the local variable cell it is kept in (a variable captured by a nested closure); the closure's
+// creation counts as a use. Ground obligations (class "owned") over the SSA def-use chains.
+func (e *Engine) checkPooledInit(fn *ssa.Function) {
+	name := funcFullName(fn)
+	fx := &FuncExec{eng: e, fn: fn, name: name, modKeys: map[string]bool{}, havocGens: map[string]bool{}}
+	mkState := func() *State {
+		st := &State{fx: fx, declSet: map[string]bool{}, pcSet: map[string]bool{}, ghostV: map[string]Value{}}
+		st.heap = &HeapView{m: map[string]string{}, base: "0"}
+		st.old = st.heap
+		return st
+	}
+	isPoolMethod := func(c *ssa.CallCommon, method string) bool {
+		f, ok := c.Value.(*ssa.Function)
+		if !ok {
+			return false
+		}
+		o := f
+		if f.Origin() != nil {
+			o = f.Origin()
+		}
+		if o.Pkg == nil || o.Pkg.Pkg.Path() != "rare/pkg/slicepool" || !strings.Contains(o.RelString(o.Pkg.Pkg), "ObjectPool") {
+			return false
+		}
+		return o.Name() == method
+	}
+	for _, b := range fn.Blocks {
+		for _, ins := range b.Instrs {
+			call, ok := ins.(*ssa.Call)
+			if !ok || !isPoolMethod(call.Common(), "Get") || call.Referrers() == nil {
+				continue
+			}
+			// the pointer and its copies read back from the variable cell it is stored in
+			aliases := map[ssa.Value]bool{call: true}
+			cells := map[*ssa.Alloc]bool{}
+			for _, r := range *call.Referrers() {
+				if s, ok := r.(*ssa.Store); ok && s.Val == ssa.Value(call) {
+					if a, ok := s.Addr.(*ssa.Alloc); ok && a.Referrers() != nil {
+						cells[a] = true
+						for _, ar := range *a.Referrers() {
+							if ld, ok := ar.(*ssa.UnOp); ok && ld.Op == token.MUL && ld.X == ssa.Value(a) {
+								aliases[ld] = true
+							}
+						}
+					}
+				}
+			}
+			nFields := -1
+			var inits []*ssa.Store
+			fieldInit := map[int][]*ssa.Store{}
+			if pt, ok := call.Type().Underlying().(*types.Pointer); ok {
+				if stt, ok := pt.Elem().Underlying().(*types.Struct); ok {
+					nFields = stt.NumFields()
+					// a field that only the pool's allocator ever writes is the same in every object of
+					// the pool: it needs no re-initialisation
+					writers := e.fieldWritersOf(typeKey(pt.Elem()))
+					allocs := e.poolAllocators()
+					for i := 0; i < stt.NumFields(); i++ {
+						ws := writers[typeKey(pt.Elem())+"."+stt.Field(i).Name()]
+						only := len(ws) > 0
+						for w := range ws {
+							if !allocs[w] {
+								only = false
+							}
+						}
+						if only {
+							fieldInit[i] = nil
+							nFields--
+						}
+					}
+				}
+			}
+			allocOnly := map[int]bool{}
+			for i := range fieldInit {
+				allocOnly[i] = true
+			}
+			for i := range allocOnly {
+				delete(fieldInit, i)
+			}
+			initAddr := map[ssa.Instruction]bool{}
+			type use struct{ ins ssa.Instruction }
+			var uses []ssa.Instruction
+			for v := range aliases {
+				if v.Referrers() == nil {
+					continue
+				}
+				for _, r := range *v.Referrers() {
+					switch u := r.(type) {
+					case *ssa.DebugRef:
+						continue
+					case *ssa.Store:
+						if u.Addr == v {
+							inits = append(inits, u)
+							continue
+						}
+						if a, ok := u.Addr.(*ssa.Alloc); ok && cells[a] && u.Val == v {
+							continue // keeping the pointer in its variable
+						}
+					case ssa.CallInstruction:
+						if isPoolMethod(u.Common(), "Return") {
+							continue
+						}
+					case *ssa.FieldAddr:
+						if u.X == v && u.Referrers() != nil {
+							onlyStores := true
+							var sts []*ssa.Store
+							for _, fr := range *u.Referrers() {
+								switch q := fr.(type) {
+								case *ssa.DebugRef:
+								case *ssa.Store:
+									if q.Addr == ssa.Value(u) {
+										sts = append(sts, q)
+									} else {
+										onlyStores = false
+									}
+								default:
+									onlyStores = false
+								}
+							}
+							if onlyStores && len(sts) > 0 {
+								fieldInit[u.Field] = append(fieldInit[u.Field], sts...)
+								initAddr[u] = true
+								continue
+							}
+						}
+					}
+					uses = append(uses, r)
+				}
+			}
+			for a := range cells {
+				for _, ar := range *a.Referrers() {
+					if mc, ok := ar.(*ssa.MakeClosure); ok {
+						uses = append(uses, mc) // the closure will use the pooled object whenever it runs
+					}
+				}
+			}
+			before := func(s *ssa.Store, u ssa.Instruction) bool {
+				if s.Block() == u.Block() {
+					return instrIndex(s) < instrIndex(u)
+				}
+				return s.Block().Dominates(u.Block())
+			}
+			dominated := func(u ssa.Instruction) bool {
+				if nFields > 0 && len(fieldInit) == nFields {
+					all := true
+					for _, sts := range fieldInit {
+						some := false
+						for _, s := range sts {
+							if before(s, u) {
+								some = true
+							}
+						}
+						if !some {
+							all = false
+						}
+					}
+					if all {
+						return true
+					}
+				}
+				for _, s := range inits {
+					if before(s, u) {
+						return true
+					}
+				}
+				return false
+			}
+			sort.Slice(uses, func(i, j int) bool {
+				if uses[i].Block().Index != uses[j].Block().Index {
+					return uses[i].Block().Index < uses[j].Block().Index
+				}
+				return instrIndex(uses[i]) < instrIndex(uses[j])
+			})
+			for k, r := range uses {
+				if os.Getenv("VERIF_DEBUG") != "" {
+					fmt.Fprintf(os.Stderr, "pooled use in %s: %T %v dominated=%v inits=%d\n", name, r, r, dominated(r), len(inits))
+				}
+				txt, _ := e.srcLine(r.Pos())
+				goal := "false"
+				if dominated(r) {
+					goal = "true"
+				}
+				e.oblige(fx, mkState(), "owned", fmt.Sprintf("pooled-object-initialised:%s#%d", strings.TrimSpace(txt), k+1), goal,
+					"object from ObjectPool.Get used before it is re-initialised (it still holds its previous user's fields)", r.Pos())
+			}
+		}
+	}
+}
+
+// poolAllocators: the functions handed to NewObjectPoolEx as allocator.
+func (e *Engine) poolAllocators() map[*ssa.Function]bool {
+	e.mu.Lock()
+	defer e.mu.Unlock()
+	if e.poolAllocs != nil {
+		return e.poolAllocs
+	}
+	e.poolAllocs = map[*ssa.Function]bool{}
+	for fn := range ssautil.AllFunctions(e.prog) {
+		for _, b := range fn.Blocks {
+			for _, ins := range b.Instrs {
+				c, ok := ins.(ssa.CallInstruction)
+				if !ok {
+					continue
+				}
+				f, ok := c.Common().Value.(*ssa.Function)
+				if !ok {
+					continue
+				}
+				o := f
+				if f.Origin() != nil {
+					o = f.Origin()
+				}
+				if o.Pkg == nil || o.Pkg.Pkg.Path() != "rare/pkg/slicepool" || o.Name() != "NewObjectPoolEx" || len(c.Common().Args) < 2 {
+					continue
+				}
+				switch a := c.Common().Args[1].(type) {
+				case *ssa.MakeClosure:
+					e.poolAllocs[a.Fn.(*ssa.Function)] = true
+				case *ssa.Function:
+					e.poolAllocs[a] = true
+				}
+			}
+		}
+	}
+	return e.poolAllocs
 }
